@@ -85,7 +85,7 @@ def fault_tree(asm, rnd, gid, root):
         if got is None:
             return []
         flat, f = got
-        if '{ROOT}' in f['text'] or not f['text'].isascii():
+        if '{ROOT}' in f['text']:
             return []
         depth = rnd.randrange(1, 3)
         tree = faultplant.build_tree(rnd, flat, depth, rnd.randrange(0, depth + 1))
@@ -136,9 +136,7 @@ def make_pool(asm, n, root='/nonexistent-bbc16'):
             continue
         if k < 5:
             lines = progs.gen_program(rnd, size=rnd.randrange(3, 30), fillers=rnd.random() < 0.3)
-            src = progs.source(lines)
-            if not src.isascii():
-                src = ''.join(c if ord(c) < 128 else 'u' for c in src)
+            src = progs.source(lines)        # (strings and comments of generated programs may hold non-ASCII text: modelled)
             pool.append(dict(kind='generated', src=src))
         elif k < 8:
             cls = faultplant.CLASSES[rnd.randrange(len(faultplant.CLASSES))]
